@@ -59,6 +59,8 @@ package peer
 //@   ensures result != nil
 //@ assume config.Config.GetPeerTimeout getter
 //@ assume internal/peer.(*RedisPubsubPeers).stop
+// currentHash reads the hash under the read lock; it starts nothing and touches no ticker (assumed frame; its lock use is checked under C35)
+//@ assume internal/peer.(*RedisPubsubPeers).currentHash
 //@ final internal/peer.RedisPubsubPeers.PubSub
 //@ final internal/peer.RedisPubsubPeers.peers
 //@ assume generics.(*MapWithTTL).Length
@@ -75,3 +77,11 @@ package peer
 //@   let ps = p.PubSub
 //@   ensures[every-tick-announces-this-node] publishedN(ps) == old(publishedN(ps)) + 1
 //@   modifies all(publishedN), all(fnCallsT), all(fnCalls), all(fnCalledN)
+
+// ---- C35: the peer list is used by the subscription goroutine (listen, checkHash - with the local pubsub, one
+// goroutine per message), by the refresh goroutine Ready starts, and by the components that register callbacks or
+// ask for the peers. hash and callbacks are behind mut; every other field that is not final, a channel or a
+// self-synchronising type must be assigned only by Start, which runs before any of those goroutines exists.
+//@ guarded_by internal/peer.RedisPubsubPeers.mut: hash, callbacks
+//@ lockdiscipline internal/peer.RedisPubsubPeers mut props C35 skip: Start
+//@ confine internal/peer.RedisPubsubPeers props C35 init: Start
